@@ -138,7 +138,7 @@ Fixpoint covered (c : cfg) (top : bool) (it : item) (outs : list out) {struct it
   | IOverloaded n parts =>
       (match parts with (_ :: _, _) :: _ => True | _ => False end) ->     (* the first item is decorated (it always is) *)
       public c top n = true -> In n (map oname outs)
-  | IVar n annotated _ _ => annotated = true -> public c top n = true -> In n (map oname outs)
+  | IVar n _ _ _ => public c top n = true -> In n (map oname outs)      (* annotated or not *)
   | IClass n _ body =>
       exists refs ob, In (OClass n refs ob) outs /\
         (fix all (l : list item) : Prop := match l with [] => True | x :: r => covered c false x ob /\ all r end) body
@@ -159,3 +159,47 @@ Definition refs_defined (env : list string) (outs : list out) : bool :=
   forallb (fun o => forallb (fun r => mem_str r (map oname outs) || mem_str r env) (out_refs o)) outs.
 Fixpoint count_name (n : string) (outs : list out) : nat :=
   match outs with [] => 0 | o :: r => (if String.eqb (oname o) n then 1 else 0) + count_name n r end.
+
+(* ---------------------------------------------------------------- guards for the positive self-consistency theorems *)
+(* the definitions of one scope, if/else alternatives flattened *)
+Fixpoint flat_item (it : item) : list item :=
+  match it with
+  | IIf b1 b2 =>
+      (fix go (l : list item) : list item := match l with [] => [] | x :: r => flat_item x ++ go r end) b1 ++
+      (fix go (l : list item) : list item := match l with [] => [] | x :: r => flat_item x ++ go r end) b2
+  | _ => [it]
+  end.
+Definition flat_items (l : list item) : list item := flat_map flat_item l.
+
+Definition item_refs (it : item) : list string :=
+  match it with
+  | IFunc _ ds refs => kept_decos ds ++ refs
+  | IOverloaded _ parts => flat_map (fun p => kept_decos (fst p) ++ snd p) parts
+  | IClass _ refs _ => refs
+  | IVar _ _ _ refs => refs
+  | IIf _ _ => []
+  end.
+
+(* the name an item defines (an OverloadedFuncDef whose first item is decorated, as it always is) *)
+Definition def_name (it : item) : list string :=
+  match it with
+  | IFunc n _ _ | IClass n _ _ | IVar n _ _ _ => [n]
+  | IOverloaded n ((_ :: _, _) :: _) => [n]
+  | _ => []
+  end.
+Definition def_names (l : list item) : list string := flat_map def_name (flat_items l).
+
+(* every name a top-level definition refers to (decorators it keeps, bases, annotation names) is known from outside
+   (`env`: builtins and imports) or is a PUBLIC name the module itself defines at top level.  This is exactly what the
+   F-M / F-F witnesses violate: they refer to a definition that __all__ filters out. *)
+Definition refs_guard (c : cfg) (env : list string) (l : list item) : bool :=
+  forallb (fun it => forallb (fun r => mem_str r env || (public c true r && mem_str r (def_names l))) (item_refs it)) (flat_items l).
+
+(* no top-level name is bound by two definitions (if/else alternatives included), as in the F-C witness *)
+Fixpoint nodupb (l : list string) : bool :=
+  match l with [] => true | x :: r => negb (mem_str x r) && nodupb r end.
+Definition all_item_names (l : list item) : list string :=
+  flat_map (fun it => match it with IFunc n _ _ | IClass n _ _ | IVar n _ _ _ | IOverloaded n _ => [n] | IIf _ _ => [] end) (flat_items l).
+Definition no_redefinition_guard (l : list item) : bool := nodupb (all_item_names l).
+Definition overload_names (l : list item) : list string :=
+  flat_map (fun it => match it with IOverloaded n _ => [n] | _ => [] end) (flat_items l).
